@@ -111,6 +111,9 @@ class ParseMonitor:
 SCRAMBLED = ("span_matchers", "skip_tokens")
 
 
+_MADE = [0]
+
+
 def make_llparser(tokenizer_str, **kw):
     """LLParser(...) the way a caller does it who builds the configuration containers, hands them over and goes
     on using them for something else: the parser gets its own copies of the containers in SCRAMBLED, and after
@@ -119,6 +122,10 @@ def make_llparser(tokenizer_str, **kw):
     for name in SCRAMBLED:
         if kw.get(name) is not None:
             mine[name] = kw[name] = type(kw[name])(kw[name]) if isinstance(kw[name], (dict, set, list)) else kw[name]
+    _MADE[0] += 1
+    if isinstance(kw.get("skip_tokens"), (set, list)) and _MADE[0] % 3 == 0:
+        # (every third time the names of the skipped tokens come as a one-shot iterable: a generator expression)
+        kw["skip_tokens"] = (t for t in list(kw["skip_tokens"]))
     parser = llparser.LLParser(tokenizer_str, **kw)
     for name, obj in mine.items():
         if isinstance(obj, dict):
